@@ -1,5 +1,5 @@
 (* GENERATED on every run by harness/vlib/py2coq.py (symbolic execution of the Python source). Do not edit.
-   sources: /var/tmp/coord/wt_s/commonroad/geometry/transform.py sha1=f1f11ed12637 *)
+   sources: /repo/commonroad/geometry/transform.py sha1=f1f11ed12637 *)
 From Coq Require Import QArith ZArith Bool List Qabs.
 From CR Require Import Base.QMod Model.Interval Model.Transform.
 Open Scope Q_scope.
